@@ -71,6 +71,12 @@ type World struct {
 	// MetaSeed (non-zero): the input files get drawn modification times (some newer than -o, some in the
 	// future), drawn permission bits and are created in a drawn order: same contents, other metadata
 	MetaSeed uint64 `json:"meta_seed,omitempty"`
+	// Peers: further build commands that run concurrently with this one, as processes of their own, in
+	// the same directory tree (make -j, two terminals, a file watcher): each has its own patterns, -o,
+	// flags and seeds; the files are those of this world. SchedSeed decides the interleaving of their file
+	// operations.
+	Peers     []*World `json:"peers,omitempty"`
+	SchedSeed uint64   `json:"sched_seed,omitempty"`
 	// SlowSeed (non-zero): a drawn quarter of the file operations takes 0.5-5 s of simulated time
 	SlowSeed uint64 `json:"slow_seed,omitempty"`
 
@@ -95,6 +101,10 @@ func (w *World) Clone() *World {
 	if w.PreOut != nil {
 		p := *w.PreOut
 		c.PreOut = &p
+	}
+	c.Peers = nil
+	for _, p := range w.Peers {
+		c.Peers = append(c.Peers, p.Clone())
 	}
 	return &c
 }
@@ -140,6 +150,9 @@ type Result struct {
 	InputsChanged []string                   `json:"inputs_changed,omitempty"`
 	DurMs         float64                    `json:"dur_ms"`
 	Race          string                     `json:"race,omitempty"` // race detector report that appeared during this run (race builds only)
+	// concurrent executions only: the peers' results and the order in which the processes were given their turns
+	Peers []*Result `json:"peers,omitempty"`
+	Turns string    `json:"turns,omitempty"`
 }
 
 var (
@@ -349,7 +362,15 @@ func Exec1(t Target) {
 		fmt.Fprintln(os.Stderr, err)
 		os.Exit(2)
 	}
-	r := Exec(t, &w)
+	var r *Result
+	if top := os.Getenv("VERIFSIM_ATTACH"); top != "" {
+		// one of several processes of a concurrent execution: the world exists already
+		simrt.GateInit()
+		simrt.GateWait() // nothing runs before the coordinator's first grant
+		r = execPhase(t, &w, top, phaseRun)
+	} else {
+		r = Exec(t, &w)
+	}
 	b, _ := json.Marshal(wireResult{R: r, Data: r.Out.Data})
 	if f := os.Getenv("VERIFSIM_RESULT"); f != "" {
 		if err := os.WriteFile(f, b, 0644); err != nil {
@@ -382,9 +403,27 @@ func Exec(t Target, w *World) *Result {
 	if Isolate {
 		return execIsolated(w)
 	}
+	if len(w.Peers) > 0 {
+		return execConcurrent(t, w)
+	}
+	return execPhase(t, w, "", phaseAll)
+}
+
+const (
+	phaseAll      = iota // set the world up, run the command in this process, observe, remove the world
+	phaseSetup           // set the world up under the given directory and return (nothing runs, nothing is removed)
+	phaseSetupOut        // as phaseSetup, but only what is at -o (a peer's output path in an existing world)
+	phaseRun             // the world exists under the given directory: run and observe, remove nothing
+)
+
+// execPhase is one execution (or a part of it, see the phase constants) under the directory top
+// ("" = a fresh one).
+func execPhase(t Target, w *World, top string, phase int) *Result {
 	initBase()
-	runCounter++
-	top := filepath.Join(baseDir, fmt.Sprintf("r%d", runCounter))
+	if top == "" {
+		runCounter++
+		top = filepath.Join(baseDir, fmt.Sprintf("r%d", runCounter))
+	}
 	cwd := filepath.Join(top, "w")
 	if w.CwdSub != "" {
 		cwd = filepath.Join(top, w.CwdSub, "w")
@@ -396,10 +435,12 @@ func Exec(t Target, w *World) *Result {
 			panic(err)
 		}
 	}
-	defer func() {
-		_ = os.Chdir("/")
-		_ = os.RemoveAll(top)
-	}()
+	if phase == phaseAll {
+		defer func() {
+			_ = os.Chdir("/")
+			_ = os.RemoveAll(top)
+		}()
+	}
 	must := func(err error) {
 		if err != nil {
 			panic(fmt.Sprintf("harness: world setup: %v", err))
@@ -409,9 +450,13 @@ func Exec(t Target, w *World) *Result {
 	inRoot := ""
 	if w.AbsInputs {
 		inRoot = absRoot()
-		_ = os.RemoveAll(inRoot)
-		must(os.MkdirAll(inRoot, 0755))
-		defer os.RemoveAll(inRoot)
+		if phase == phaseAll || phase == phaseSetup {
+			_ = os.RemoveAll(inRoot)
+			must(os.MkdirAll(inRoot, 0755))
+		}
+		if phase == phaseAll {
+			defer os.RemoveAll(inRoot)
+		}
 	}
 	inPath := func(p string) string {
 		if inRoot != "" && !filepath.IsAbs(p) {
@@ -419,10 +464,15 @@ func Exec(t Target, w *World) *Result {
 		}
 		return p
 	}
-	for _, d := range w.Dirs {
-		must(os.MkdirAll(inPath(d), 0755))
-	}
 	files := append([]InFile{}, w.Files...)
+	if phase == phaseRun || phase == phaseSetupOut {
+		files = nil
+	}
+	if phase == phaseAll || phase == phaseSetup {
+		for _, d := range w.Dirs {
+			must(os.MkdirAll(inPath(d), 0755))
+		}
+	}
 	if w.MetaSeed != 0 {
 		for i := len(files) - 1; i > 0; i-- {
 			j := int(choice.Mix(w.MetaSeed, uint64(i)) % uint64(i+1))
@@ -467,37 +517,39 @@ func Exec(t Target, w *World) *Result {
 			_ = os.Chtimes(inPath(f.Path), at, at)
 		}
 	}
-	if w.CwdGo {
+	if w.CwdGo && (phase == phaseAll || phase == phaseSetup) {
 		must(os.WriteFile("zz_unrelated.go", []byte("package unrelated\n\nimport \"strings\"\n\nvar Cfg = struct{ Field string }{strings.ToUpper(\"x\")}\n"), 0644))
 		must(os.WriteFile("zz_other.go", []byte("package unrelated\n\nfunc Helper() int { return 1 }\n"), 0644))
 	}
-	switch w.OutKind {
-	case "isdir":
-		must(os.MkdirAll(w.Out, 0755))
-	case "file", "symlink":
-		must(os.MkdirAll(filepath.Dir(w.Out), 0755))
-	}
-	switch w.OutKind {
-	case "symlink-cycle":
-		must(os.Symlink("x_link.go", w.Out))
-		must(os.Symlink("y_link.go", "x_link.go"))
-		must(os.Symlink("x_link.go", "y_link.go"))
-	case "symlink-dangling":
-		must(os.MkdirAll(filepath.Dir(w.Out), 0755))
-		must(os.Symlink("real_behind_link.go", w.Out)) // relative to the link's directory
-	case "symlink-self":
-		must(os.Symlink(filepath.Base(w.Out), w.Out))
-	}
-	if w.OutKind == "symlink" {
-		// -o is a symbolic link to an existing regular file
-		must(os.MkdirAll(filepath.Dir(w.Out), 0755))
-		must(os.WriteFile("link_target.go", []byte(w.PreOut.Content), os.FileMode(w.PreOut.Mode)))
-		rel, err := filepath.Rel(filepath.Dir(w.Out), "link_target.go")
-		must(err)
-		must(os.Symlink(rel, w.Out))
-	} else if w.PreOut != nil {
-		must(os.WriteFile(w.Out, []byte(w.PreOut.Content), os.FileMode(w.PreOut.Mode)))
-		must(os.Chmod(w.Out, os.FileMode(w.PreOut.Mode)))
+	if phase != phaseRun {
+		switch w.OutKind {
+		case "isdir":
+			must(os.MkdirAll(w.Out, 0755))
+		case "file", "symlink":
+			must(os.MkdirAll(filepath.Dir(w.Out), 0755))
+		}
+		switch w.OutKind {
+		case "symlink-cycle":
+			must(os.Symlink("x_link.go", w.Out))
+			must(os.Symlink("y_link.go", "x_link.go"))
+			must(os.Symlink("x_link.go", "y_link.go"))
+		case "symlink-dangling":
+			must(os.MkdirAll(filepath.Dir(w.Out), 0755))
+			must(os.Symlink("real_behind_link.go", w.Out)) // relative to the link's directory
+		case "symlink-self":
+			must(os.Symlink(filepath.Base(w.Out), w.Out))
+		}
+		if w.OutKind == "symlink" {
+			// -o is a symbolic link to an existing regular file
+			must(os.MkdirAll(filepath.Dir(w.Out), 0755))
+			must(os.WriteFile("link_target.go", []byte(w.PreOut.Content), os.FileMode(w.PreOut.Mode)))
+			rel, err := filepath.Rel(filepath.Dir(w.Out), "link_target.go")
+			must(err)
+			must(os.Symlink(rel, w.Out))
+		} else if w.PreOut != nil {
+			must(os.WriteFile(w.Out, []byte(w.PreOut.Content), os.FileMode(w.PreOut.Mode)))
+			must(os.Chmod(w.Out, os.FileMode(w.PreOut.Mode)))
+		}
 	}
 	before := listAll(cwd)
 	beforeSet := map[string]bool{}
@@ -510,6 +562,9 @@ func Exec(t Target, w *World) *Result {
 	}
 
 	res := &Result{OutBefore: observe(w.Out)}
+	if phase == phaseSetup || phase == phaseSetupOut {
+		return res
+	}
 	args := []string{"gontainer", "build"}
 	up := ""
 	if w.RunFrom != "" {
